@@ -212,5 +212,14 @@ def replay(case, ctx):
         avg(ctx, case)
     elif case["kind"] == "cells":
         cells(ctx)
+    elif ctx.shard >= 1000:
+        # a saved regeneration failure replayed next to an exploring run: the regeneration has no input and shard 0 of that run performs it
+        # anyway (two regenerations in the same scratch copy would race)
+        return
     else:
         regenerate(ctx)
+
+
+# coverage-guided tier (vlib/fuzz.py): the weighted-averaging helper
+FUZZ_IMPORTS = ["src.utilities.import_utilities"]
+FUZZ_TARGETS = {"avg": (lambda ctx: (avg_case(), lambda c: avg(ctx, c)), 3000, 200000, 2)}
